@@ -866,14 +866,19 @@ Proof.
 Qed.
 
 (** Response headers: what is not hop-by-hop or framing passes unchanged. *)
-Lemma client_header_kept (gz nonempty : bool) raw k :
+Lemma client_header_kept status (gz nonempty : bool) raw k :
   mem_str k (K_cl :: K_ce :: hop_headers) = false ->
+  (status =? 304) && str_eqb k K_ct = false ->
   mem_str k (connection_listed (if gz then hdel K_ce (resp_canonical raw) else resp_canonical raw)) = false ->
-  hvalues k (fst (fst (client_headers gz nonempty raw))) = hvalues k (resp_canonical raw).
+  hvalues k (fst (fst (client_headers status gz nonempty raw))) = hvalues k (resp_canonical raw).
 Proof.
-  intros Hk Hc. cbn [mem_str] in Hk.
+  intros Hk H304 Hc. cbn [mem_str] in Hk.
   apply orb_false_iff in Hk as [K1 Hk]. apply orb_false_iff in Hk as [K2 Hhop].
   unfold client_headers. cbn [fst].
-  rewrite hvalues_hdel_other by auto. rewrite remove_hop_other by auto.
-  destruct gz; auto. now apply hvalues_hdel_other.
+  assert (H2 : hvalues k (hdel K_cl (remove_hop_by_hop (if gz then hdel K_ce (resp_canonical raw) else resp_canonical raw)))
+               = hvalues k (resp_canonical raw)).
+  { rewrite hvalues_hdel_other by auto. rewrite remove_hop_other by auto.
+    destruct gz; auto. now apply hvalues_hdel_other. }
+  destruct (status =? 304); [|exact H2].
+  cbn [andb] in H304. now rewrite hvalues_hdel_other.
 Qed.
